@@ -1163,6 +1163,47 @@ def make_groups(rng, tier):
     return groups
 
 
+def audit_probe(ctx, info, rng):
+    """C20's audit clause on the queue-mutation tools: every call of a mutating MCP tool - applied, preview, refused, matching nothing -
+    appends exactly one audit record.  Runs the MCP half of a few generated groups (real MCP server, real SQLite database)."""
+    groups = [g for g in make_groups(rng, "quick") if g.get("mcp")][:4]
+    wire = []
+    for g in groups:
+        wire.append(dict(config=g["config"], backend=g["backend"], now=g["now"], setup=g["setup"], requests=[],
+                         mcp=dict(g["mcp"], calls=[dict(tool=c["tool"], args=c["args"]) for c in g["mcp_calls"]])))
+    rc, out, err = C.harness_run(info["hbin"], ["manageapi"], {"dir": os.path.join(ctx.scratch, "mgaudit"), "groups": wire, "par": 8}, timeout=900)
+    if rc != 0:
+        raise RuntimeError("manageapi harness failed (audit probe): " + err[-2000:])
+    stats = dict(calls=0, applied_zero_match=0, applied=0, preview=0, refused=0, by_result={})
+    for g, o in zip(groups, json.loads(out)):
+        if o.get("err"):
+            continue
+        for c, r in zip(g["mcp_calls"], o.get("mcp_resps") or []):
+            if not r.get("audit_captured"):
+                continue
+            stats["calls"] += 1
+            ok = r["status"] == 200
+            f = r.get("fields") or {}
+            changed = sum(v for k, v in f.items() if k != "matched")
+            if not ok:
+                stats["refused"] += 1
+            elif r.get("preview_only"):
+                stats["preview"] += 1
+            else:
+                stats["applied"] += 1
+                if changed == 0:
+                    stats["applied_zero_match"] += 1
+            for a in r.get("audit") or []:
+                stats["by_result"][a] = stats["by_result"].get(a, 0) + 1
+            if len(r.get("audit") or []) != 1:
+                kind = "refused" if not ok else "preview" if r.get("preview_only") else "applied-nothing-matched" if changed == 0 else "applied"
+                C.report(ctx, "mcp-mutation-audit:%s:%s" % (c["tool"], kind),
+                         "the %s call of the mutating tool %s appended %d audit records (want exactly one): %s" % (kind, c["tool"], len(r.get("audit") or []), r.get("audit")),
+                         {"kind": "request", "case": {"tool": c["tool"], "arguments": c["args"], "config": g["config"], "setup": g["setup"]},
+                          "observed": {"status": r["status"], "fields": f, "audit_results": r.get("audit")}})
+    return {"mcp_mutation_audit": stats}
+
+
 def run(ctx, info, rng, *_):
     t_start = _time.time()
     tier = ctx.tier
